@@ -4,7 +4,9 @@ import (
 	"bytes"
 	"encoding/json"
 	"fmt"
+	"github.com/aml-org/amf-custom-validator/pkg/config"
 	"strings"
+	"time"
 
 	"github.com/aml-org/amf-custom-validator/internal/validator"
 	"github.com/aml-org/amf-custom-validator/pkg"
@@ -79,6 +81,9 @@ func C13(e *core.Env) {
 		}
 		out, err := pkg.Validate(profile, c13Data, false, nil)
 		replay := map[string]any{"position": position, "string": s, "profile": profile, "data": c13Data}
+		if err == nil && reportTextCheckProfile(e, "C13 "+position, profile, c13Data, time.Time{}, true, config.DefaultReportConfiguration(), out, replay) {
+			res.Count("report-bytes=equal")
+		}
 		if err != nil {
 			replay["error"] = core.Trunc(err.Error(), 1500)
 			if unit, gerr := validator.GenerateRego(profile, false, nil); gerr == nil && unit != nil {
